@@ -305,7 +305,8 @@ more("C13", "renderers and joined colliders shared between goroutines, GOMAXPROC
             "goroutine attributed by its crash trace; V2FLazyInitProof: the lazy-index protocol for any set of readers by "
             "the TLA+ proof system.")
 more("C14", "regions placed in the sweep frame with vertices nudged off a common sweep line by 1e-12..1e-9, polygons with "
-            "63..130 vertices in both orders through Triangulate / TriangulateFace / ReadOFF.")
+            "63..130 vertices in both orders through Triangulate / TriangulateFace / ReadOFF; polygons with spikes whose sides bend "
+            "by 1e-1..1e-7 rad judged on harness-computed aggregates (ThinJudge).")
 more("C15", "files beyond the 2^16 capacity hints, float32-exact values, ASCII STL numbers at float32 midpoints, segment CSV "
             "writer / reader.")
 more("C16", "byte-level faults (cut / replace / insert at evenly spread positions), CSV at the level of fields (CsvFieldJudge), "
@@ -317,3 +318,7 @@ more("C18", "StretchMinimizingParameterization (boundary, no flip), ExtendBounda
 more("C20", "closed-form radiance (uniform emitter, matte furnace, matte floor under a spherical emitter) through the recursive "
             "and the bidirectional tracer at depth limits 1..60 (RadianceJudge); PixelPoolProof: the pixel pool for any "
             "number of pixels and workers by the TLA+ proof system.")
+more("C02", "search refinement on decimal lattices (DecimalSearchJudge), knife-edge wedges, scales 2^-30..2^40, the three "
+            "triangle modes of dual contouring with the quad-tiling clause, the package-level shortcuts.")
+more("C03", "primitives on and around their reported bounds (PrimJudge), derived and wrapper solids, flat shapes on barely "
+            "tilted axes with generator-supplied extreme points, axial primitives in a unit of 2^-20.")
